@@ -210,6 +210,30 @@ module Nat =
     | S n' -> (match m with
                | O -> n0
                | S m' -> S (max n' m'))
+
+  (** val even : nat -> bool **)
+
+  let rec even = function
+  | O -> true
+  | S n1 -> (match n1 with
+             | O -> false
+             | S n' -> even n')
+
+  (** val divmod : nat -> nat -> nat -> nat -> nat * nat **)
+
+  let rec divmod x y q u =
+    match x with
+    | O -> (q, u)
+    | S x' ->
+      (match u with
+       | O -> divmod x' y (S q) y
+       | S u' -> divmod x' y q u')
+
+  (** val div : nat -> nat -> nat **)
+
+  let div x y = match y with
+  | O -> y
+  | S y' -> fst (divmod x y' O y')
  end
 
 module Pos =
@@ -600,6 +624,12 @@ let rec skipn n0 l =
   | S n1 -> (match l with
              | [] -> []
              | _ :: l0 -> skipn n1 l0)
+
+(** val seq : nat -> nat -> nat list **)
+
+let rec seq start = function
+| O -> []
+| S len0 -> start :: (seq (S start) len0)
 
 (** val repeat : 'a1 -> nat -> 'a1 list **)
 
@@ -3963,7 +3993,7 @@ let glencoe_write m =
   let fid = VStr
     (append ('F'::('M'::('_'::[]))) (str_remove_char ' ' (name m.root)))
   in
-  let feats = glencoe_features m in
+  let feats0 = glencoe_features m in
   let tree = glencoe_tree m.root in
   (match let rec go cs acc =
            match cs with
@@ -3976,7 +4006,7 @@ let glencoe_write m =
    | Ok cinfo0 ->
      Ok (VMap ((('i'::('d'::[])), fid) :: ((('n'::('a'::('m'::('e'::[])))),
        fid) :: ((('f'::('e'::('a'::('t'::('u'::('r'::('e'::('s'::[])))))))),
-       feats) :: ((('t'::('r'::('e'::('e'::[])))),
+       feats0) :: ((('t'::('r'::('e'::('e'::[])))),
        tree) :: ((('c'::('o'::('n'::('s'::('t'::('r'::('a'::('i'::('n'::('t'::('s'::[]))))))))))),
        (VMap cinfo0)) :: []))))))
    | Err e -> Err e)
@@ -4880,6 +4910,839 @@ let fama_read doc =
                  | Err e -> Err e)
            else go rest cur seen
   in go (x_children doc) None []
+
+(** val metric_methods : char list list **)
+
+let metric_methods =
+  ('a'::('b'::('s'::('t'::('r'::('a'::('c'::('t'::('_'::('c'::('o'::('m'::('p'::('o'::('u'::('n'::('d'::('_'::('f'::('e'::('a'::('t'::('u'::('r'::('e'::('s'::[])))))))))))))))))))))))))) :: (('a'::('b'::('s'::('t'::('r'::('a'::('c'::('t'::('_'::('f'::('e'::('a'::('t'::('u'::('r'::('e'::('s'::[]))))))))))))))))) :: (('a'::('b'::('s'::('t'::('r'::('a'::('c'::('t'::('_'::('l'::('e'::('a'::('f'::('_'::('f'::('e'::('a'::('t'::('u'::('r'::('e'::('s'::[])))))))))))))))))))))) :: (('a'::('l'::('t'::('e'::('r'::('n'::('a'::('t'::('i'::('v'::('e'::('_'::('g'::('r'::('o'::('u'::('p'::('s'::[])))))))))))))))))) :: (('a'::('v'::('g'::('_'::('c'::('h'::('i'::('l'::('d'::('r'::('e'::('n'::('_'::('p'::('e'::('r'::('_'::('f'::('e'::('a'::('t'::('u'::('r'::('e'::[])))))))))))))))))))))))) :: (('a'::('v'::('g'::('_'::('c'::('o'::('n'::('s'::('t'::('r'::('a'::('i'::('n'::('t'::('s'::('_'::('p'::('e'::('r'::('_'::('f'::('e'::('a'::('t'::('u'::('r'::('e'::[]))))))))))))))))))))))))))) :: (('b'::('r'::('a'::('n'::('c'::('h'::('i'::('n'::('g'::('_'::('f'::('a'::('c'::('t'::('o'::('r'::[])))))))))))))))) :: (('c'::('a'::('r'::('d'::('i'::('n'::('a'::('l'::('i'::('t'::('y'::('_'::('g'::('r'::('o'::('u'::('p'::('s'::[])))))))))))))))))) :: (('c'::('o'::('m'::('p'::('l'::('e'::('x'::('_'::('c'::('o'::('n'::('s'::('t'::('r'::('a'::('i'::('n'::('t'::('s'::[]))))))))))))))))))) :: (('c'::('o'::('m'::('p'::('o'::('u'::('n'::('d'::('_'::('f'::('e'::('a'::('t'::('u'::('r'::('e'::('s'::[]))))))))))))))))) :: (('c'::('o'::('n'::('c'::('r'::('e'::('t'::('e'::('_'::('c'::('o'::('m'::('p'::('o'::('u'::('n'::('d'::('_'::('f'::('e'::('a'::('t'::('u'::('r'::('e'::('s'::[])))))))))))))))))))))))))) :: (('c'::('o'::('n'::('c'::('r'::('e'::('t'::('e'::('_'::('f'::('e'::('a'::('t'::('u'::('r'::('e'::('s'::[]))))))))))))))))) :: (('c'::('o'::('n'::('c'::('r'::('e'::('t'::('e'::('_'::('l'::('e'::('a'::('f'::('_'::('f'::('e'::('a'::('t'::('u'::('r'::('e'::('s'::[])))))))))))))))))))))) :: (('c'::('r'::('o'::('s'::('s'::('_'::('t'::('r'::('e'::('e'::('_'::('c'::('o'::('n'::('s'::('t'::('r'::('a'::('i'::('n'::('t'::('s'::[])))))))))))))))))))))) :: (('d'::('e'::('p'::('t'::('h'::('_'::('t'::('r'::('e'::('e'::[])))))))))) :: (('e'::('x'::('c'::('l'::('u'::('d'::('e'::('s'::('_'::('c'::('o'::('n'::('s'::('t'::('r'::('a'::('i'::('n'::('t'::('s'::[])))))))))))))))))))) :: (('e'::('x'::('t'::('r'::('a'::('_'::('c'::('o'::('n'::('s'::('t'::('r'::('a'::('i'::('n'::('t'::('_'::('r'::('e'::('p'::('r'::('e'::('s'::('e'::('n'::('t'::('a'::('t'::('i'::('v'::('e'::('n'::('e'::('s'::('s'::[]))))))))))))))))))))))))))))))))))) :: (('f'::('e'::('a'::('t'::('u'::('r'::('e'::('_'::('g'::('r'::('o'::('u'::('p'::('s'::[])))))))))))))) :: (('f'::('e'::('a'::('t'::('u'::('r'::('e'::('s'::[])))))))) :: (('g'::('r'::('o'::('u'::('p'::('e'::('d'::('_'::('f'::('e'::('a'::('t'::('u'::('r'::('e'::('s'::[])))))))))))))))) :: (('l'::('e'::('a'::('f'::('_'::('f'::('e'::('a'::('t'::('u'::('r'::('e'::('s'::[]))))))))))))) :: (('m'::('a'::('n'::('d'::('a'::('t'::('o'::('r'::('y'::('_'::('f'::('e'::('a'::('t'::('u'::('r'::('e'::('s'::[])))))))))))))))))) :: (('m'::('a'::('x'::('_'::('c'::('h'::('i'::('l'::('d'::('r'::('e'::('n'::('_'::('p'::('e'::('r'::('_'::('f'::('e'::('a'::('t'::('u'::('r'::('e'::[])))))))))))))))))))))))) :: (('m'::('a'::('x'::('_'::('c'::('o'::('n'::('s'::('t'::('r'::('a'::('i'::('n'::('t'::('s'::('_'::('p'::('e'::('r'::('_'::('f'::('e'::('a'::('t'::('u'::('r'::('e'::[]))))))))))))))))))))))))))) :: (('m'::('a'::('x'::('_'::('d'::('e'::('p'::('t'::('h'::('_'::('t'::('r'::('e'::('e'::[])))))))))))))) :: (('m'::('e'::('a'::('n'::('_'::('d'::('e'::('p'::('t'::('h'::('_'::('t'::('r'::('e'::('e'::[]))))))))))))))) :: (('m'::('e'::('d'::('i'::('a'::('n'::('_'::('d'::('e'::('p'::('t'::('h'::('_'::('t'::('r'::('e'::('e'::[]))))))))))))))))) :: (('m'::('i'::('n'::('_'::('c'::('h'::('i'::('l'::('d'::('r'::('e'::('n'::('_'::('p'::('e'::('r'::('_'::('f'::('e'::('a'::('t'::('u'::('r'::('e'::[])))))))))))))))))))))))) :: (('m'::('i'::('n'::('_'::('c'::('o'::('n'::('s'::('t'::('r'::('a'::('i'::('n'::('t'::('s'::('_'::('p'::('e'::('r'::('_'::('f'::('e'::('a'::('t'::('u'::('r'::('e'::[]))))))))))))))))))))))))))) :: (('m'::('u'::('t'::('e'::('x'::('_'::('g'::('r'::('o'::('u'::('p'::('s'::[])))))))))))) :: (('o'::('p'::('t'::('i'::('o'::('n'::('a'::('l'::('_'::('f'::('e'::('a'::('t'::('u'::('r'::('e'::('s'::[]))))))))))))))))) :: (('o'::('r'::('_'::('g'::('r'::('o'::('u'::('p'::('s'::[]))))))))) :: (('p'::('s'::('e'::('u'::('d'::('o'::('_'::('c'::('o'::('m'::('p'::('l'::('e'::('x'::('_'::('c'::('o'::('n'::('s'::('t'::('r'::('a'::('i'::('n'::('t'::('s'::[])))))))))))))))))))))))))) :: (('r'::('e'::('q'::('u'::('i'::('r'::('e'::('s'::('_'::('c'::('o'::('n'::('s'::('t'::('r'::('a'::('i'::('n'::('t'::('s'::[])))))))))))))))))))) :: (('r'::('o'::('o'::('t'::('_'::('f'::('e'::('a'::('t'::('u'::('r'::('e'::[])))))))))))) :: (('s'::('i'::('m'::('p'::('l'::('e'::('_'::('c'::('o'::('n'::('s'::('t'::('r'::('a'::('i'::('n'::('t'::('s'::[])))))))))))))))))) :: (('s'::('o'::('l'::('i'::('t'::('a'::('r'::('y'::('_'::('f'::('e'::('a'::('t'::('u'::('r'::('e'::('s'::[]))))))))))))))))) :: (('s'::('t'::('r'::('i'::('c'::('t'::('_'::('c'::('o'::('m'::('p'::('l'::('e'::('x'::('_'::('c'::('o'::('n'::('s'::('t'::('r'::('a'::('i'::('n'::('t'::('s'::[])))))))))))))))))))))))))) :: (('t'::('o'::('p'::('_'::('f'::('e'::('a'::('t'::('u'::('r'::('e'::('s'::[])))))))))))) :: (('t'::('r'::('e'::('e'::('_'::('r'::('e'::('l'::('a'::('t'::('i'::('o'::('n'::('s'::('h'::('i'::('p'::('s'::[])))))))))))))))))) :: [])))))))))))))))))))))))))))))))))))))))
+
+type mval =
+| MNames of char list list
+| MStr of char list
+| MInt of z
+| MHund of z
+
+type entry = { me_method : char list; me_name : char list; me_result : 
+               mval; me_size : z option; me_ratio : z option;
+               me_parent : char list option; me_level : z }
+
+(** val zlen : 'a1 list -> z **)
+
+let zlen l =
+  Z.of_nat (length l)
+
+(** val get_ratio : z -> z -> z -> z **)
+
+let get_ratio n1 n2 precision =
+  if Z.eqb n2 Z0
+  then Z0
+  else Z.mul (pyround_div n1 n2 precision)
+         (Z.pow (Zpos (XO (XI (XO XH))))
+           (Z.sub (Zpos (XO (XO XH))) precision))
+
+(** val mk :
+    char list -> char list -> mval -> z option -> z option -> char list
+    option -> z -> entry **)
+
+let mk meth name0 r size0 ratio parent level =
+  { me_method = meth; me_name = name0; me_result = r; me_size = size0;
+    me_ratio = ratio; me_parent = parent; me_level = level }
+
+(** val listing :
+    char list -> char list -> char list list -> char list list -> char list
+    -> z -> entry **)
+
+let listing meth name0 l base parent level =
+  mk meth name0 (MNames l) (Some (zlen l)) (Some
+    (get_ratio (zlen l) (zlen base) (Zpos (XO (XO XH))))) (Some parent) level
+
+(** val ctc_str : ctc -> char list **)
+
+let ctc_str c =
+  append ('('::[])
+    (append c.c_name (append (')'::(' '::[])) (node_str c.c_ast)))
+
+(** val is_abstract_truthy : feature -> bool **)
+
+let is_abstract_truthy f =
+  match (info f).f_abstract with
+  | VNone -> false
+  | VBool b -> b
+  | VInt z0 -> negb (Z.eqb z0 Z0)
+  | VFloat r -> negb (eqb0 r ('0'::('.'::('0'::[]))))
+  | VStr s -> negb (eqb0 s [])
+  | VList l -> negb (Nat.eqb (length l) O)
+  | VMap kv -> negb (Nat.eqb (length kv) O)
+
+(** val feat_is_grouped : feature option -> feature -> bool **)
+
+let feat_is_grouped p f =
+  match p with
+  | Some q ->
+    existsb (fun r -> (&&) (rel_is_group r) (in_children f r)) (rels q)
+  | None -> false
+
+(** val zmin_list : z list -> z -> z **)
+
+let zmin_list l default =
+  match l with
+  | [] -> default
+  | x :: xs -> fold_left Z.min xs x
+
+(** val zmax_list : z list -> z -> z **)
+
+let zmax_list l default =
+  match l with
+  | [] -> default
+  | x :: xs -> fold_left Z.max xs x
+
+(** val zsort : z list -> z list **)
+
+let zsort l =
+  sort_by (fun z0 -> z0) Z.ltb l
+
+(** val median_hund : z list -> z **)
+
+let median_hund l =
+  let s = zsort l in
+  let n0 = length s in
+  if Nat.even n0
+  then Z.mul (Zpos (XO (XI (XO (XO (XI XH))))))
+         (Z.add (nth (sub (Nat.div n0 (S (S O))) (S O)) s Z0)
+           (nth (Nat.div n0 (S (S O))) s Z0))
+  else Z.mul (Zpos (XO (XO (XI (XO (XO (XI XH)))))))
+         (nth (Nat.div n0 (S (S O))) s Z0)
+
+(** val mean_hund : z list -> z **)
+
+let mean_hund l =
+  let s = zsum l in
+  if Z.eqb s Z0 then Z0 else pyround_div s (zlen l) (Zpos (XO XH))
+
+(** val fctx : fm -> (feature option * feature) list **)
+
+let fctx =
+  get_features_ctx
+
+(** val feats : fm -> feature list **)
+
+let feats =
+  get_features
+
+(** val fnames : fm -> char list list **)
+
+let fnames m =
+  map name (feats m)
+
+(** val abstract_names : fm -> char list list **)
+
+let abstract_names m =
+  map name (filter is_abstract_truthy (feats m))
+
+(** val concrete_names : fm -> char list list **)
+
+let concrete_names m =
+  map name (filter (fun f -> negb (is_abstract_truthy f)) (feats m))
+
+(** val leaf_names_ : fm -> char list list **)
+
+let leaf_names_ m =
+  map name (filter feat_is_leaf (feats m))
+
+(** val nchildren_of : feature -> z **)
+
+let nchildren_of f =
+  zsum (map nchildren (rels f))
+
+(** val cpf : fm -> z list **)
+
+let cpf m =
+  let per_ctc = map (fun c -> ctc_features c.c_ast) m.ctcs in
+  map (fun f -> zlen (filter (fun l -> list_existsb_eq (name f) l) per_ctc))
+    (feats m)
+
+(** val leaf_depths : fm -> z list **)
+
+let leaf_depths m =
+  map (fun fa -> zlen (snd fa))
+    (filter (fun fa -> feat_is_leaf (fst fa)) (ancestors_table m))
+
+(** val group_names : fm -> char list list **)
+
+let group_names m =
+  map name (filter feat_is_group (feats m))
+
+(** val solitary_names : fm -> char list list **)
+
+let solitary_names m =
+  map (fun x -> name (snd x))
+    (filter (fun x ->
+      (&&) (negb (feat_is_root (fst x)))
+        (negb (feat_is_grouped (fst x) (snd x)))) (fctx m))
+
+(** val grouped_names : fm -> char list list **)
+
+let grouped_names m =
+  map (fun x -> name (snd x))
+    (filter (fun x ->
+      (&&) (negb (feat_is_root (fst x))) (feat_is_grouped (fst x) (snd x)))
+      (fctx m))
+
+(** val ctc_strs : fm -> nat list -> char list list **)
+
+let ctc_strs m idx =
+  map (fun i ->
+    match nth_error m.ctcs i with
+    | Some c -> ctc_str c
+    | None -> []) idx
+
+(** val ctc_listing_entry :
+    fm -> char list -> char list -> nat list result -> nat list result ->
+    char list -> z -> entry result **)
+
+let ctc_listing_entry m meth name_ l base parent level =
+  match l with
+  | Ok li ->
+    (match base with
+     | Ok bi ->
+       Ok
+         (listing meth name_ (ctc_strs m li) (map (fun _ -> []) bi) parent
+           level)
+     | Err e -> Err e)
+  | Err e -> Err e
+
+(** val all_ctc_idx : fm -> nat list result **)
+
+let all_ctc_idx m =
+  Ok (seq O (length m.ctcs))
+
+(** val metric : fm -> char list -> entry result **)
+
+let metric m meth =
+  let ok = fun x -> Ok x in
+  if eqb0 meth ('f'::('e'::('a'::('t'::('u'::('r'::('e'::('s'::[]))))))))
+  then ok
+         (mk meth ('F'::('e'::('a'::('t'::('u'::('r'::('e'::('s'::[]))))))))
+           (MNames (fnames m)) (Some (zlen (fnames m))) None None Z0)
+  else if eqb0 meth
+            ('a'::('b'::('s'::('t'::('r'::('a'::('c'::('t'::('_'::('f'::('e'::('a'::('t'::('u'::('r'::('e'::('s'::[])))))))))))))))))
+       then ok
+              (listing meth
+                ('A'::('b'::('s'::('t'::('r'::('a'::('c'::('t'::(' '::('f'::('e'::('a'::('t'::('u'::('r'::('e'::('s'::[])))))))))))))))))
+                (abstract_names m) (fnames m)
+                ('F'::('e'::('a'::('t'::('u'::('r'::('e'::('s'::[]))))))))
+                (Zpos XH))
+       else if eqb0 meth
+                 ('c'::('o'::('n'::('c'::('r'::('e'::('t'::('e'::('_'::('f'::('e'::('a'::('t'::('u'::('r'::('e'::('s'::[])))))))))))))))))
+            then ok
+                   (listing meth
+                     ('C'::('o'::('n'::('c'::('r'::('e'::('t'::('e'::(' '::('f'::('e'::('a'::('t'::('u'::('r'::('e'::('s'::[])))))))))))))))))
+                     (concrete_names m) (fnames m)
+                     ('F'::('e'::('a'::('t'::('u'::('r'::('e'::('s'::[]))))))))
+                     (Zpos XH))
+            else if eqb0 meth
+                      ('l'::('e'::('a'::('f'::('_'::('f'::('e'::('a'::('t'::('u'::('r'::('e'::('s'::[])))))))))))))
+                 then ok
+                        (listing meth
+                          ('L'::('e'::('a'::('f'::(' '::('f'::('e'::('a'::('t'::('u'::('r'::('e'::('s'::[])))))))))))))
+                          (leaf_names_ m) (fnames m)
+                          ('F'::('e'::('a'::('t'::('u'::('r'::('e'::('s'::[]))))))))
+                          (Zpos XH))
+                 else if eqb0 meth
+                           ('c'::('o'::('m'::('p'::('o'::('u'::('n'::('d'::('_'::('f'::('e'::('a'::('t'::('u'::('r'::('e'::('s'::[])))))))))))))))))
+                      then ok
+                             (listing meth
+                               ('C'::('o'::('m'::('p'::('o'::('u'::('n'::('d'::(' '::('f'::('e'::('a'::('t'::('u'::('r'::('e'::('s'::[])))))))))))))))))
+                               (map name
+                                 (filter (fun f -> negb (feat_is_leaf f))
+                                   (feats m))) (fnames m)
+                               ('F'::('e'::('a'::('t'::('u'::('r'::('e'::('s'::[]))))))))
+                               (Zpos XH))
+                      else if eqb0 meth
+                                ('c'::('o'::('n'::('c'::('r'::('e'::('t'::('e'::('_'::('c'::('o'::('m'::('p'::('o'::('u'::('n'::('d'::('_'::('f'::('e'::('a'::('t'::('u'::('r'::('e'::('s'::[]))))))))))))))))))))))))))
+                           then ok
+                                  (listing meth
+                                    ('C'::('o'::('n'::('c'::('r'::('e'::('t'::('e'::(' '::('c'::('o'::('m'::('p'::('o'::('u'::('n'::('d'::(' '::('f'::('e'::('a'::('t'::('u'::('r'::('e'::('s'::[]))))))))))))))))))))))))))
+                                    (map name
+                                      (filter (fun f ->
+                                        (&&) (negb (is_abstract_truthy f))
+                                          (negb (feat_is_leaf f))) (feats m)))
+                                    (concrete_names m)
+                                    ('C'::('o'::('n'::('c'::('r'::('e'::('t'::('e'::(' '::('f'::('e'::('a'::('t'::('u'::('r'::('e'::('s'::[])))))))))))))))))
+                                    (Zpos (XO XH)))
+                           else if eqb0 meth
+                                     ('c'::('o'::('n'::('c'::('r'::('e'::('t'::('e'::('_'::('l'::('e'::('a'::('f'::('_'::('f'::('e'::('a'::('t'::('u'::('r'::('e'::('s'::[]))))))))))))))))))))))
+                                then ok
+                                       (listing meth
+                                         ('C'::('o'::('n'::('c'::('r'::('e'::('t'::('e'::(' '::('l'::('e'::('a'::('f'::(' '::('f'::('e'::('a'::('t'::('u'::('r'::('e'::('s'::[]))))))))))))))))))))))
+                                         (map name
+                                           (filter (fun f ->
+                                             (&&)
+                                               (negb (is_abstract_truthy f))
+                                               (feat_is_leaf f)) (feats m)))
+                                         (concrete_names m)
+                                         ('C'::('o'::('n'::('c'::('r'::('e'::('t'::('e'::(' '::('f'::('e'::('a'::('t'::('u'::('r'::('e'::('s'::[])))))))))))))))))
+                                         (Zpos (XO XH)))
+                                else if eqb0 meth
+                                          ('a'::('b'::('s'::('t'::('r'::('a'::('c'::('t'::('_'::('c'::('o'::('m'::('p'::('o'::('u'::('n'::('d'::('_'::('f'::('e'::('a'::('t'::('u'::('r'::('e'::('s'::[]))))))))))))))))))))))))))
+                                     then ok
+                                            (listing meth
+                                              ('A'::('b'::('s'::('t'::('r'::('a'::('c'::('t'::(' '::('c'::('o'::('m'::('p'::('o'::('u'::('n'::('d'::(' '::('f'::('e'::('a'::('t'::('u'::('r'::('e'::('s'::[]))))))))))))))))))))))))))
+                                              (map name
+                                                (filter (fun f ->
+                                                  (&&) (is_abstract_truthy f)
+                                                    (negb (feat_is_leaf f)))
+                                                  (feats m)))
+                                              (abstract_names m)
+                                              ('A'::('b'::('s'::('t'::('r'::('a'::('c'::('t'::(' '::('f'::('e'::('a'::('t'::('u'::('r'::('e'::('s'::[])))))))))))))))))
+                                              (Zpos (XO XH)))
+                                     else if eqb0 meth
+                                               ('a'::('b'::('s'::('t'::('r'::('a'::('c'::('t'::('_'::('l'::('e'::('a'::('f'::('_'::('f'::('e'::('a'::('t'::('u'::('r'::('e'::('s'::[]))))))))))))))))))))))
+                                          then ok
+                                                 (listing meth
+                                                   ('A'::('b'::('s'::('t'::('r'::('a'::('c'::('t'::(' '::('l'::('e'::('a'::('f'::(' '::('f'::('e'::('a'::('t'::('u'::('r'::('e'::('s'::[]))))))))))))))))))))))
+                                                   (map name
+                                                     (filter (fun f ->
+                                                       (&&)
+                                                         (is_abstract_truthy
+                                                           f) (feat_is_leaf f))
+                                                       (feats m)))
+                                                   (abstract_names m)
+                                                   ('A'::('b'::('s'::('t'::('r'::('a'::('c'::('t'::(' '::('f'::('e'::('a'::('t'::('u'::('r'::('e'::('s'::[])))))))))))))))))
+                                                   (Zpos (XO XH)))
+                                          else if eqb0 meth
+                                                    ('t'::('r'::('e'::('e'::('_'::('r'::('e'::('l'::('a'::('t'::('i'::('o'::('n'::('s'::('h'::('i'::('p'::('s'::[]))))))))))))))))))
+                                               then let l =
+                                                      map (fun pr ->
+                                                        rel_str
+                                                          (name (fst pr))
+                                                          (snd pr))
+                                                        (subrelations_ctx
+                                                          m.root)
+                                                    in
+                                                    ok
+                                                      (mk meth
+                                                        ('T'::('r'::('e'::('e'::(' '::('r'::('e'::('l'::('a'::('t'::('i'::('o'::('n'::('s'::('h'::('i'::('p'::('s'::[]))))))))))))))))))
+                                                        (MNames l) (Some
+                                                        (zlen l)) None None
+                                                        Z0)
+                                               else if eqb0 meth
+                                                         ('r'::('o'::('o'::('t'::('_'::('f'::('e'::('a'::('t'::('u'::('r'::('e'::[]))))))))))))
+                                                    then ok
+                                                           (mk meth
+                                                             ('R'::('o'::('o'::('t'::(' '::('f'::('e'::('a'::('t'::('u'::('r'::('e'::[]))))))))))))
+                                                             (MStr
+                                                             (name m.root))
+                                                             (Some (Zpos XH))
+                                                             (Some
+                                                             (get_ratio (Zpos
+                                                               XH)
+                                                               (zlen
+                                                                 (fnames m))
+                                                               (Zpos (XO (XO
+                                                               XH))))) (Some
+                                                             ('F'::('e'::('a'::('t'::('u'::('r'::('e'::('s'::[])))))))))
+                                                             (Zpos XH))
+                                                    else if eqb0 meth
+                                                              ('t'::('o'::('p'::('_'::('f'::('e'::('a'::('t'::('u'::('r'::('e'::('s'::[]))))))))))))
+                                                         then ok
+                                                                (listing meth
+                                                                  ('T'::('o'::('p'::(' '::('f'::('e'::('a'::('t'::('u'::('r'::('e'::('s'::[]))))))))))))
+                                                                  (map name
+                                                                    (children
+                                                                    m.root))
+                                                                  (fnames m)
+                                                                  ('R'::('o'::('o'::('t'::(' '::('f'::('e'::('a'::('t'::('u'::('r'::('e'::[]))))))))))))
+                                                                  (Zpos (XO
+                                                                  XH)))
+                                                         else if eqb0 meth
+                                                                   ('s'::('o'::('l'::('i'::('t'::('a'::('r'::('y'::('_'::('f'::('e'::('a'::('t'::('u'::('r'::('e'::('s'::[])))))))))))))))))
+                                                              then ok
+                                                                    (listing
+                                                                    meth
+                                                                    ('S'::('o'::('l'::('i'::('t'::('a'::('r'::('y'::(' '::('f'::('e'::('a'::('t'::('u'::('r'::('e'::('s'::[])))))))))))))))))
+                                                                    (solitary_names
+                                                                    m)
+                                                                    (fnames m)
+                                                                    ('F'::('e'::('a'::('t'::('u'::('r'::('e'::('s'::[]))))))))
+                                                                    (Zpos XH))
+                                                              else if 
+                                                                    eqb0 meth
+                                                                    ('g'::('r'::('o'::('u'::('p'::('e'::('d'::('_'::('f'::('e'::('a'::('t'::('u'::('r'::('e'::('s'::[]))))))))))))))))
+                                                                   then 
+                                                                    ok
+                                                                    (listing
+                                                                    meth
+                                                                    ('G'::('r'::('o'::('u'::('p'::('e'::('d'::(' '::('f'::('e'::('a'::('t'::('u'::('r'::('e'::('s'::[]))))))))))))))))
+                                                                    (grouped_names
+                                                                    m)
+                                                                    (fnames m)
+                                                                    ('F'::('e'::('a'::('t'::('u'::('r'::('e'::('s'::[]))))))))
+                                                                    (Zpos XH))
+                                                                   else 
+                                                                    if 
+                                                                    eqb0 meth
+                                                                    ('m'::('a'::('n'::('d'::('a'::('t'::('o'::('r'::('y'::('_'::('f'::('e'::('a'::('t'::('u'::('r'::('e'::('s'::[]))))))))))))))))))
+                                                                    then 
+                                                                    ok
+                                                                    (listing
+                                                                    meth
+                                                                    ('M'::('a'::('n'::('d'::('a'::('t'::('o'::('r'::('y'::(' '::('f'::('e'::('a'::('t'::('u'::('r'::('e'::('s'::[]))))))))))))))))))
+                                                                    (map name
+                                                                    (get_mandatory_features
+                                                                    m))
+                                                                    (solitary_names
+                                                                    m)
+                                                                    ('T'::('r'::('e'::('e'::(' '::('r'::('e'::('l'::('a'::('t'::('i'::('o'::('n'::('s'::('h'::('i'::('p'::('s'::[]))))))))))))))))))
+                                                                    (Zpos XH))
+                                                                    else 
+                                                                    if 
+                                                                    eqb0 meth
+                                                                    ('o'::('p'::('t'::('i'::('o'::('n'::('a'::('l'::('_'::('f'::('e'::('a'::('t'::('u'::('r'::('e'::('s'::[])))))))))))))))))
+                                                                    then 
+                                                                    ok
+                                                                    (listing
+                                                                    meth
+                                                                    ('O'::('p'::('t'::('i'::('o'::('n'::('a'::('l'::(' '::('f'::('e'::('a'::('t'::('u'::('r'::('e'::('s'::[])))))))))))))))))
+                                                                    (map name
+                                                                    (get_optional_features
+                                                                    m))
+                                                                    (solitary_names
+                                                                    m)
+                                                                    ('T'::('r'::('e'::('e'::(' '::('r'::('e'::('l'::('a'::('t'::('i'::('o'::('n'::('s'::('h'::('i'::('p'::('s'::[]))))))))))))))))))
+                                                                    (Zpos XH))
+                                                                    else 
+                                                                    if 
+                                                                    eqb0 meth
+                                                                    ('f'::('e'::('a'::('t'::('u'::('r'::('e'::('_'::('g'::('r'::('o'::('u'::('p'::('s'::[]))))))))))))))
+                                                                    then 
+                                                                    ok
+                                                                    (listing
+                                                                    meth
+                                                                    ('F'::('e'::('a'::('t'::('u'::('r'::('e'::(' '::('g'::('r'::('o'::('u'::('p'::('s'::[]))))))))))))))
+                                                                    (group_names
+                                                                    m)
+                                                                    (map
+                                                                    (fun _ ->
+                                                                    [])
+                                                                    (get_relations
+                                                                    m))
+                                                                    ('T'::('r'::('e'::('e'::(' '::('r'::('e'::('l'::('a'::('t'::('i'::('o'::('n'::('s'::('h'::('i'::('p'::('s'::[]))))))))))))))))))
+                                                                    (Zpos XH))
+                                                                    else 
+                                                                    if 
+                                                                    eqb0 meth
+                                                                    ('a'::('l'::('t'::('e'::('r'::('n'::('a'::('t'::('i'::('v'::('e'::('_'::('g'::('r'::('o'::('u'::('p'::('s'::[]))))))))))))))))))
+                                                                    then 
+                                                                    ok
+                                                                    (listing
+                                                                    meth
+                                                                    ('A'::('l'::('t'::('e'::('r'::('n'::('a'::('t'::('i'::('v'::('e'::(' '::('g'::('r'::('o'::('u'::('p'::('s'::[]))))))))))))))))))
+                                                                    (map name
+                                                                    (get_alternative_group_features
+                                                                    m))
+                                                                    (group_names
+                                                                    m)
+                                                                    ('F'::('e'::('a'::('t'::('u'::('r'::('e'::(' '::('g'::('r'::('o'::('u'::('p'::('s'::[]))))))))))))))
+                                                                    (Zpos (XO
+                                                                    XH)))
+                                                                    else 
+                                                                    if 
+                                                                    eqb0 meth
+                                                                    ('o'::('r'::('_'::('g'::('r'::('o'::('u'::('p'::('s'::[])))))))))
+                                                                    then 
+                                                                    ok
+                                                                    (listing
+                                                                    meth
+                                                                    ('O'::('r'::(' '::('g'::('r'::('o'::('u'::('p'::('s'::[])))))))))
+                                                                    (map name
+                                                                    (get_or_group_features
+                                                                    m))
+                                                                    (group_names
+                                                                    m)
+                                                                    ('F'::('e'::('a'::('t'::('u'::('r'::('e'::(' '::('g'::('r'::('o'::('u'::('p'::('s'::[]))))))))))))))
+                                                                    (Zpos (XO
+                                                                    XH)))
+                                                                    else 
+                                                                    if 
+                                                                    eqb0 meth
+                                                                    ('m'::('u'::('t'::('e'::('x'::('_'::('g'::('r'::('o'::('u'::('p'::('s'::[]))))))))))))
+                                                                    then 
+                                                                    ok
+                                                                    (listing
+                                                                    meth
+                                                                    ('M'::('u'::('t'::('e'::('x'::(' '::('g'::('r'::('o'::('u'::('p'::('s'::[]))))))))))))
+                                                                    (map name
+                                                                    (filter
+                                                                    feat_is_mutex_group
+                                                                    (feats m)))
+                                                                    (group_names
+                                                                    m)
+                                                                    ('F'::('e'::('a'::('t'::('u'::('r'::('e'::(' '::('g'::('r'::('o'::('u'::('p'::('s'::[]))))))))))))))
+                                                                    (Zpos (XO
+                                                                    XH)))
+                                                                    else 
+                                                                    if 
+                                                                    eqb0 meth
+                                                                    ('c'::('a'::('r'::('d'::('i'::('n'::('a'::('l'::('i'::('t'::('y'::('_'::('g'::('r'::('o'::('u'::('p'::('s'::[]))))))))))))))))))
+                                                                    then 
+                                                                    ok
+                                                                    (listing
+                                                                    meth
+                                                                    ('C'::('a'::('r'::('d'::('i'::('n'::('a'::('l'::('i'::('t'::('y'::(' '::('g'::('r'::('o'::('u'::('p'::('s'::[]))))))))))))))))))
+                                                                    (map name
+                                                                    (filter
+                                                                    feat_is_cardinality_group
+                                                                    (feats m)))
+                                                                    (group_names
+                                                                    m)
+                                                                    ('F'::('e'::('a'::('t'::('u'::('r'::('e'::(' '::('g'::('r'::('o'::('u'::('p'::('s'::[]))))))))))))))
+                                                                    (Zpos (XO
+                                                                    XH)))
+                                                                    else 
+                                                                    if 
+                                                                    eqb0 meth
+                                                                    ('b'::('r'::('a'::('n'::('c'::('h'::('i'::('n'::('g'::('_'::('f'::('a'::('c'::('t'::('o'::('r'::[]))))))))))))))))
+                                                                    then 
+                                                                    ok
+                                                                    (mk meth
+                                                                    ('B'::('r'::('a'::('n'::('c'::('h'::('i'::('n'::('g'::(' '::('f'::('a'::('c'::('t'::('o'::('r'::[]))))))))))))))))
+                                                                    (MHund
+                                                                    (average_branching_factor
+                                                                    m)) None
+                                                                    None None
+                                                                    Z0)
+                                                                    else 
+                                                                    if 
+                                                                    eqb0 meth
+                                                                    ('m'::('i'::('n'::('_'::('c'::('h'::('i'::('l'::('d'::('r'::('e'::('n'::('_'::('p'::('e'::('r'::('_'::('f'::('e'::('a'::('t'::('u'::('r'::('e'::[]))))))))))))))))))))))))
+                                                                    then 
+                                                                    ok
+                                                                    (mk meth
+                                                                    ('M'::('i'::('n'::(' '::('c'::('h'::('i'::('l'::('d'::('r'::('e'::('n'::(' '::('p'::('e'::('r'::(' '::('f'::('e'::('a'::('t'::('u'::('r'::('e'::[]))))))))))))))))))))))))
+                                                                    (MInt
+                                                                    (zmin_list
+                                                                    (map
+                                                                    nchildren_of
+                                                                    (filter
+                                                                    (fun f ->
+                                                                    negb
+                                                                    (feat_is_leaf
+                                                                    f))
+                                                                    (feats m)))
+                                                                    Z0)) None
+                                                                    None
+                                                                    (Some
+                                                                    ('B'::('r'::('a'::('n'::('c'::('h'::('i'::('n'::('g'::(' '::('f'::('a'::('c'::('t'::('o'::('r'::[])))))))))))))))))
+                                                                    (Zpos XH))
+                                                                    else 
+                                                                    if 
+                                                                    eqb0 meth
+                                                                    ('m'::('a'::('x'::('_'::('c'::('h'::('i'::('l'::('d'::('r'::('e'::('n'::('_'::('p'::('e'::('r'::('_'::('f'::('e'::('a'::('t'::('u'::('r'::('e'::[]))))))))))))))))))))))))
+                                                                    then 
+                                                                    ok
+                                                                    (mk meth
+                                                                    ('M'::('a'::('x'::(' '::('c'::('h'::('i'::('l'::('d'::('r'::('e'::('n'::(' '::('p'::('e'::('r'::(' '::('f'::('e'::('a'::('t'::('u'::('r'::('e'::[]))))))))))))))))))))))))
+                                                                    (MInt
+                                                                    (zmax_list
+                                                                    (map
+                                                                    nchildren_of
+                                                                    (feats m))
+                                                                    Z0)) None
+                                                                    None
+                                                                    (Some
+                                                                    ('B'::('r'::('a'::('n'::('c'::('h'::('i'::('n'::('g'::(' '::('f'::('a'::('c'::('t'::('o'::('r'::[])))))))))))))))))
+                                                                    (Zpos XH))
+                                                                    else 
+                                                                    if 
+                                                                    eqb0 meth
+                                                                    ('a'::('v'::('g'::('_'::('c'::('h'::('i'::('l'::('d'::('r'::('e'::('n'::('_'::('p'::('e'::('r'::('_'::('f'::('e'::('a'::('t'::('u'::('r'::('e'::[]))))))))))))))))))))))))
+                                                                    then 
+                                                                    let s =
+                                                                    zsum
+                                                                    (map
+                                                                    nchildren_of
+                                                                    (feats m))
+                                                                    in
+                                                                    ok
+                                                                    (mk meth
+                                                                    ('A'::('v'::('g'::(' '::('c'::('h'::('i'::('l'::('d'::('r'::('e'::('n'::(' '::('p'::('e'::('r'::(' '::('f'::('e'::('a'::('t'::('u'::('r'::('e'::[]))))))))))))))))))))))))
+                                                                    (MHund
+                                                                    (if 
+                                                                    Z.eqb s Z0
+                                                                    then Z0
+                                                                    else 
+                                                                    pyround_div
+                                                                    s
+                                                                    (zlen
+                                                                    (feats m))
+                                                                    (Zpos (XO
+                                                                    XH))))
+                                                                    None None
+                                                                    (Some
+                                                                    ('B'::('r'::('a'::('n'::('c'::('h'::('i'::('n'::('g'::(' '::('f'::('a'::('c'::('t'::('o'::('r'::[])))))))))))))))))
+                                                                    (Zpos XH))
+                                                                    else 
+                                                                    if 
+                                                                    eqb0 meth
+                                                                    ('d'::('e'::('p'::('t'::('h'::('_'::('t'::('r'::('e'::('e'::[]))))))))))
+                                                                    then 
+                                                                    ok
+                                                                    (mk meth
+                                                                    ('D'::('e'::('p'::('t'::('h'::(' '::('o'::('f'::(' '::('t'::('r'::('e'::('e'::[])))))))))))))
+                                                                    (MInt
+                                                                    (zmax_list
+                                                                    (leaf_depths
+                                                                    m) Z0))
+                                                                    None None
+                                                                    None Z0)
+                                                                    else 
+                                                                    if 
+                                                                    eqb0 meth
+                                                                    ('m'::('a'::('x'::('_'::('d'::('e'::('p'::('t'::('h'::('_'::('t'::('r'::('e'::('e'::[]))))))))))))))
+                                                                    then 
+                                                                    ok
+                                                                    (mk meth
+                                                                    ('M'::('a'::('x'::(' '::('d'::('e'::('p'::('t'::('h'::(' '::('o'::('f'::(' '::('t'::('r'::('e'::('e'::[])))))))))))))))))
+                                                                    (MInt
+                                                                    (zmax_list
+                                                                    (leaf_depths
+                                                                    m) Z0))
+                                                                    None None
+                                                                    (Some
+                                                                    ('D'::('e'::('p'::('t'::('h'::(' '::('o'::('f'::(' '::('t'::('r'::('e'::('e'::[]))))))))))))))
+                                                                    (Zpos XH))
+                                                                    else 
+                                                                    if 
+                                                                    eqb0 meth
+                                                                    ('m'::('e'::('a'::('n'::('_'::('d'::('e'::('p'::('t'::('h'::('_'::('t'::('r'::('e'::('e'::[])))))))))))))))
+                                                                    then 
+                                                                    ok
+                                                                    (mk meth
+                                                                    ('M'::('e'::('a'::('n'::(' '::('d'::('e'::('p'::('t'::('h'::(' '::('o'::('f'::(' '::('t'::('r'::('e'::('e'::[]))))))))))))))))))
+                                                                    (MHund
+                                                                    (mean_hund
+                                                                    (leaf_depths
+                                                                    m))) None
+                                                                    None
+                                                                    (Some
+                                                                    ('D'::('e'::('p'::('t'::('h'::(' '::('o'::('f'::(' '::('t'::('r'::('e'::('e'::[]))))))))))))))
+                                                                    (Zpos XH))
+                                                                    else 
+                                                                    if 
+                                                                    eqb0 meth
+                                                                    ('m'::('e'::('d'::('i'::('a'::('n'::('_'::('d'::('e'::('p'::('t'::('h'::('_'::('t'::('r'::('e'::('e'::[])))))))))))))))))
+                                                                    then 
+                                                                    ok
+                                                                    (mk meth
+                                                                    ('M'::('e'::('d'::('i'::('a'::('n'::(' '::('d'::('e'::('p'::('t'::('h'::(' '::('o'::('f'::(' '::('t'::('r'::('e'::('e'::[]))))))))))))))))))))
+                                                                    (MHund
+                                                                    (median_hund
+                                                                    (leaf_depths
+                                                                    m))) None
+                                                                    None
+                                                                    (Some
+                                                                    ('D'::('e'::('p'::('t'::('h'::(' '::('o'::('f'::(' '::('t'::('r'::('e'::('e'::[]))))))))))))))
+                                                                    (Zpos XH))
+                                                                    else 
+                                                                    if 
+                                                                    eqb0 meth
+                                                                    ('c'::('r'::('o'::('s'::('s'::('_'::('t'::('r'::('e'::('e'::('_'::('c'::('o'::('n'::('s'::('t'::('r'::('a'::('i'::('n'::('t'::('s'::[]))))))))))))))))))))))
+                                                                    then 
+                                                                    let l =
+                                                                    map
+                                                                    ctc_str
+                                                                    m.ctcs
+                                                                    in
+                                                                    ok
+                                                                    (mk meth
+                                                                    ('C'::('r'::('o'::('s'::('s'::('-'::('t'::('r'::('e'::('e'::(' '::('c'::('o'::('n'::('s'::('t'::('r'::('a'::('i'::('n'::('t'::('s'::[]))))))))))))))))))))))
+                                                                    (MNames
+                                                                    l) (Some
+                                                                    (zlen l))
+                                                                    None None
+                                                                    Z0)
+                                                                    else 
+                                                                    if 
+                                                                    eqb0 meth
+                                                                    ('s'::('i'::('m'::('p'::('l'::('e'::('_'::('c'::('o'::('n'::('s'::('t'::('r'::('a'::('i'::('n'::('t'::('s'::[]))))))))))))))))))
+                                                                    then 
+                                                                    ctc_listing_entry
+                                                                    m meth
+                                                                    ('S'::('i'::('m'::('p'::('l'::('e'::(' '::('c'::('o'::('n'::('s'::('t'::('r'::('a'::('i'::('n'::('t'::('s'::[]))))))))))))))))))
+                                                                    (get_simple_constraints
+                                                                    m)
+                                                                    (all_ctc_idx
+                                                                    m)
+                                                                    ('C'::('r'::('o'::('s'::('s'::('-'::('t'::('r'::('e'::('e'::(' '::('c'::('o'::('n'::('s'::('t'::('r'::('a'::('i'::('n'::('t'::('s'::[]))))))))))))))))))))))
+                                                                    (Zpos XH)
+                                                                    else 
+                                                                    if 
+                                                                    eqb0 meth
+                                                                    ('r'::('e'::('q'::('u'::('i'::('r'::('e'::('s'::('_'::('c'::('o'::('n'::('s'::('t'::('r'::('a'::('i'::('n'::('t'::('s'::[]))))))))))))))))))))
+                                                                    then 
+                                                                    ctc_listing_entry
+                                                                    m meth
+                                                                    ('R'::('e'::('q'::('u'::('i'::('r'::('e'::('s'::(' '::('c'::('o'::('n'::('s'::('t'::('r'::('a'::('i'::('n'::('t'::('s'::[]))))))))))))))))))))
+                                                                    (get_requires_constraints
+                                                                    m)
+                                                                    (get_simple_constraints
+                                                                    m)
+                                                                    ('S'::('i'::('m'::('p'::('l'::('e'::(' '::('c'::('o'::('n'::('s'::('t'::('r'::('a'::('i'::('n'::('t'::('s'::[]))))))))))))))))))
+                                                                    (Zpos (XO
+                                                                    XH))
+                                                                    else 
+                                                                    if 
+                                                                    eqb0 meth
+                                                                    ('e'::('x'::('c'::('l'::('u'::('d'::('e'::('s'::('_'::('c'::('o'::('n'::('s'::('t'::('r'::('a'::('i'::('n'::('t'::('s'::[]))))))))))))))))))))
+                                                                    then 
+                                                                    ctc_listing_entry
+                                                                    m meth
+                                                                    ('E'::('x'::('c'::('l'::('u'::('d'::('e'::('s'::(' '::('c'::('o'::('n'::('s'::('t'::('r'::('a'::('i'::('n'::('t'::('s'::[]))))))))))))))))))))
+                                                                    (get_excludes_constraints
+                                                                    m)
+                                                                    (get_simple_constraints
+                                                                    m)
+                                                                    ('S'::('i'::('m'::('p'::('l'::('e'::(' '::('c'::('o'::('n'::('s'::('t'::('r'::('a'::('i'::('n'::('t'::('s'::[]))))))))))))))))))
+                                                                    (Zpos (XO
+                                                                    XH))
+                                                                    else 
+                                                                    if 
+                                                                    eqb0 meth
+                                                                    ('c'::('o'::('m'::('p'::('l'::('e'::('x'::('_'::('c'::('o'::('n'::('s'::('t'::('r'::('a'::('i'::('n'::('t'::('s'::[])))))))))))))))))))
+                                                                    then 
+                                                                    ctc_listing_entry
+                                                                    m meth
+                                                                    ('C'::('o'::('m'::('p'::('l'::('e'::('x'::(' '::('c'::('o'::('n'::('s'::('t'::('r'::('a'::('i'::('n'::('t'::('s'::[])))))))))))))))))))
+                                                                    (get_complex_constraints
+                                                                    m)
+                                                                    (all_ctc_idx
+                                                                    m)
+                                                                    ('C'::('r'::('o'::('s'::('s'::('-'::('t'::('r'::('e'::('e'::(' '::('c'::('o'::('n'::('s'::('t'::('r'::('a'::('i'::('n'::('t'::('s'::[]))))))))))))))))))))))
+                                                                    (Zpos XH)
+                                                                    else 
+                                                                    if 
+                                                                    eqb0 meth
+                                                                    ('p'::('s'::('e'::('u'::('d'::('o'::('_'::('c'::('o'::('m'::('p'::('l'::('e'::('x'::('_'::('c'::('o'::('n'::('s'::('t'::('r'::('a'::('i'::('n'::('t'::('s'::[]))))))))))))))))))))))))))
+                                                                    then 
+                                                                    ctc_listing_entry
+                                                                    m meth
+                                                                    ('P'::('s'::('e'::('u'::('d'::('o'::('-'::('c'::('o'::('m'::('p'::('l'::('e'::('x'::(' '::('c'::('o'::('n'::('s'::('t'::('r'::('a'::('i'::('n'::('t'::('s'::[]))))))))))))))))))))))))))
+                                                                    (get_pseudocomplex_constraints
+                                                                    m)
+                                                                    (get_complex_constraints
+                                                                    m)
+                                                                    ('C'::('o'::('m'::('p'::('l'::('e'::('x'::(' '::('c'::('o'::('n'::('s'::('t'::('r'::('a'::('i'::('n'::('t'::('s'::[])))))))))))))))))))
+                                                                    (Zpos (XO
+                                                                    XH))
+                                                                    else 
+                                                                    if 
+                                                                    eqb0 meth
+                                                                    ('s'::('t'::('r'::('i'::('c'::('t'::('_'::('c'::('o'::('m'::('p'::('l'::('e'::('x'::('_'::('c'::('o'::('n'::('s'::('t'::('r'::('a'::('i'::('n'::('t'::('s'::[]))))))))))))))))))))))))))
+                                                                    then 
+                                                                    ctc_listing_entry
+                                                                    m meth
+                                                                    ('S'::('t'::('r'::('i'::('c'::('t'::('-'::('c'::('o'::('m'::('p'::('l'::('e'::('x'::(' '::('c'::('o'::('n'::('s'::('t'::('r'::('a'::('i'::('n'::('t'::('s'::[]))))))))))))))))))))))))))
+                                                                    (get_strictcomplex_constraints
+                                                                    m)
+                                                                    (get_complex_constraints
+                                                                    m)
+                                                                    ('C'::('o'::('m'::('p'::('l'::('e'::('x'::(' '::('c'::('o'::('n'::('s'::('t'::('r'::('a'::('i'::('n'::('t'::('s'::[])))))))))))))))))))
+                                                                    (Zpos (XO
+                                                                    XH))
+                                                                    else 
+                                                                    if 
+                                                                    eqb0 meth
+                                                                    ('m'::('i'::('n'::('_'::('c'::('o'::('n'::('s'::('t'::('r'::('a'::('i'::('n'::('t'::('s'::('_'::('p'::('e'::('r'::('_'::('f'::('e'::('a'::('t'::('u'::('r'::('e'::[])))))))))))))))))))))))))))
+                                                                    then 
+                                                                    ok
+                                                                    (mk meth
+                                                                    ('M'::('i'::('n'::(' '::('c'::('o'::('n'::('s'::('t'::('r'::('a'::('i'::('n'::('t'::('s'::(' '::('p'::('e'::('r'::(' '::('f'::('e'::('a'::('t'::('u'::('r'::('e'::[])))))))))))))))))))))))))))
+                                                                    (MInt
+                                                                    (zmin_list
+                                                                    (cpf m)
+                                                                    Z0)) None
+                                                                    None
+                                                                    (Some
+                                                                    ('C'::('r'::('o'::('s'::('s'::('-'::('t'::('r'::('e'::('e'::(' '::('c'::('o'::('n'::('s'::('t'::('r'::('a'::('i'::('n'::('t'::('s'::[])))))))))))))))))))))))
+                                                                    (Zpos XH))
+                                                                    else 
+                                                                    if 
+                                                                    eqb0 meth
+                                                                    ('m'::('a'::('x'::('_'::('c'::('o'::('n'::('s'::('t'::('r'::('a'::('i'::('n'::('t'::('s'::('_'::('p'::('e'::('r'::('_'::('f'::('e'::('a'::('t'::('u'::('r'::('e'::[])))))))))))))))))))))))))))
+                                                                    then 
+                                                                    ok
+                                                                    (mk meth
+                                                                    ('M'::('a'::('x'::(' '::('c'::('o'::('n'::('s'::('t'::('r'::('a'::('i'::('n'::('t'::('s'::(' '::('p'::('e'::('r'::(' '::('f'::('e'::('a'::('t'::('u'::('r'::('e'::[])))))))))))))))))))))))))))
+                                                                    (MInt
+                                                                    (zmax_list
+                                                                    (cpf m)
+                                                                    Z0)) None
+                                                                    None
+                                                                    (Some
+                                                                    ('C'::('r'::('o'::('s'::('s'::('-'::('t'::('r'::('e'::('e'::(' '::('c'::('o'::('n'::('s'::('t'::('r'::('a'::('i'::('n'::('t'::('s'::[])))))))))))))))))))))))
+                                                                    (Zpos XH))
+                                                                    else 
+                                                                    if 
+                                                                    eqb0 meth
+                                                                    ('a'::('v'::('g'::('_'::('c'::('o'::('n'::('s'::('t'::('r'::('a'::('i'::('n'::('t'::('s'::('_'::('p'::('e'::('r'::('_'::('f'::('e'::('a'::('t'::('u'::('r'::('e'::[])))))))))))))))))))))))))))
+                                                                    then 
+                                                                    ok
+                                                                    (mk meth
+                                                                    ('A'::('v'::('g'::(' '::('c'::('o'::('n'::('s'::('t'::('r'::('a'::('i'::('n'::('t'::('s'::(' '::('p'::('e'::('r'::(' '::('f'::('e'::('a'::('t'::('u'::('r'::('e'::[])))))))))))))))))))))))))))
+                                                                    (MHund
+                                                                    (mean_hund
+                                                                    (cpf m)))
+                                                                    None None
+                                                                    (Some
+                                                                    ('C'::('r'::('o'::('s'::('s'::('-'::('t'::('r'::('e'::('e'::(' '::('c'::('o'::('n'::('s'::('t'::('r'::('a'::('i'::('n'::('t'::('s'::[])))))))))))))))))))))))
+                                                                    (Zpos XH))
+                                                                    else 
+                                                                    if 
+                                                                    eqb0 meth
+                                                                    ('e'::('x'::('t'::('r'::('a'::('_'::('c'::('o'::('n'::('s'::('t'::('r'::('a'::('i'::('n'::('t'::('_'::('r'::('e'::('p'::('r'::('e'::('s'::('e'::('n'::('t'::('a'::('t'::('i'::('v'::('e'::('n'::('e'::('s'::('s'::[])))))))))))))))))))))))))))))))))))
+                                                                    then 
+                                                                    let l =
+                                                                    fold_left
+                                                                    (fun acc c ->
+                                                                    fold_left
+                                                                    (fun a s ->
+                                                                    add_once
+                                                                    s a)
+                                                                    (ctc_features
+                                                                    c.c_ast)
+                                                                    acc)
+                                                                    m.ctcs []
+                                                                    in
+                                                                    ok
+                                                                    (mk meth
+                                                                    ('F'::('e'::('a'::('t'::('u'::('r'::('e'::('s'::(' '::('i'::('n'::(' '::('c'::('o'::('n'::('s'::('t'::('r'::('a'::('i'::('n'::('t'::('s'::[])))))))))))))))))))))))
+                                                                    (MNames
+                                                                    l) (Some
+                                                                    (zlen l))
+                                                                    (Some
+                                                                    (get_ratio
+                                                                    (zlen l)
+                                                                    (zlen
+                                                                    (fnames m))
+                                                                    (Zpos (XO
+                                                                    XH))))
+                                                                    (Some
+                                                                    ('C'::('r'::('o'::('s'::('s'::('-'::('t'::('r'::('e'::('e'::(' '::('c'::('o'::('n'::('s'::('t'::('r'::('a'::('i'::('n'::('t'::('s'::[])))))))))))))))))))))))
+                                                                    (Zpos XH))
+                                                                    else 
+                                                                    Err
+                                                                    OtherExn
+
+(** val report : fm -> char list list option -> entry list result **)
+
+let report m flt =
+  let methods =
+    match flt with
+    | Some l -> filter (fun n0 -> list_existsb_eq n0 l) metric_methods
+    | None -> metric_methods
+  in
+  mapM (metric m) methods
 
 (** val e_aval : aval -> sexp **)
 
@@ -5804,6 +6667,24 @@ let op_eqq a b =
     (e_tag ('c'::('t'::('c'::('s'::('_'::('e'::('q'::[])))))))
       ((e_matrix (ctc_eqb str_lower) a.ctcs b.ctcs) :: [])) :: [])))))))))
 
+(** val e_mval : mval -> sexp **)
+
+let e_mval = function
+| MNames l ->
+  e_tag ('n'::('a'::('m'::('e'::('s'::[]))))) ((SList
+    (map (fun x -> SStr x) l)) :: [])
+| MStr s -> e_tag ('s'::('t'::('r'::[]))) ((SStr s) :: [])
+| MInt z0 -> e_tag ('i'::('n'::('t'::[]))) ((e_z z0) :: [])
+| MHund h -> e_tag ('h'::('u'::('n'::('d'::[])))) ((e_z h) :: [])
+
+(** val e_entry : entry -> sexp **)
+
+let e_entry e =
+  SList ((SStr e.me_method) :: ((SStr
+    e.me_name) :: ((e_mval e.me_result) :: ((e_opt e_z e.me_size) :: (
+    (e_opt e_z e.me_ratio) :: ((e_opt (fun x -> SStr x) e.me_parent) :: (
+    (e_z e.me_level) :: [])))))))
+
 (** val bad : char list -> sexp **)
 
 let bad msg =
@@ -6023,6 +6904,56 @@ let dispatch = function
                                                                     bad
                                                                     ('a'::('r'::('i'::('t'::('y'::[])))))))
                                                                else if 
+                                                                    eqb0 op
+                                                                    ('m'::('e'::('t'::('r'::('i'::('c'::('s'::[])))))))
+                                                                    then 
+                                                                    (match args with
+                                                                    | [] ->
+                                                                    bad
+                                                                    ('a'::('r'::('i'::('t'::('y'::[])))))
+                                                                    | flt :: l0 ->
+                                                                    (match l0 with
+                                                                    | [] ->
+                                                                    bad
+                                                                    ('a'::('r'::('i'::('t'::('y'::[])))))
+                                                                    | m :: l1 ->
+                                                                    (match l1 with
+                                                                    | [] ->
+                                                                    (match 
+                                                                    d_fm m with
+                                                                    | Some m' ->
+                                                                    let f =
+                                                                    match flt with
+                                                                    | SAtom _ ->
+                                                                    Some None
+                                                                    | SStr _ ->
+                                                                    Some None
+                                                                    | SList l2 ->
+                                                                    option_map
+                                                                    (fun x ->
+                                                                    Some x)
+                                                                    (omap
+                                                                    d_str l2)
+                                                                    in
+                                                                    (
+                                                                    match f with
+                                                                    | Some f' ->
+                                                                    e_result
+                                                                    (e_list
+                                                                    e_entry)
+                                                                    (report
+                                                                    m' f')
+                                                                    | None ->
+                                                                    bad
+                                                                    ('f'::('i'::('l'::('t'::('e'::('r'::[])))))))
+                                                                    | None ->
+                                                                    bad
+                                                                    ('f'::('m'::[])))
+                                                                    | _ :: _ ->
+                                                                    bad
+                                                                    ('a'::('r'::('i'::('t'::('y'::[]))))))))
+                                                                    else 
+                                                                    if 
                                                                     eqb0 op
                                                                     ('e'::('c'::('h'::('o'::('_'::('f'::('m'::[])))))))
                                                                     then 
